@@ -323,41 +323,86 @@ def task_initialize_velocity(ctx):
     ctx.assume_note("shape-bounded: 2 atoms, one molecule, symbolic masses / coordinates / draws")
 
 
+def replay_seed_with_user_velocities(model):
+    """real Langevin engine (AM1 H2, 2 steps) with user-supplied velocities: the same seed after a different amount of earlier
+    random-number use must give bit-identical final velocities, and another seed different ones."""
+    import io, contextlib, os, tempfile, shutil
+    import torch
+    from seqm.seqm_functions.constants import Constants
+    from seqm.Molecule import Molecule
+    from seqm.MolecularDynamics import Molecular_Dynamics_Langevin
+
+    torch.set_default_dtype(torch.float64)
+
+    def run(seed, burn):
+        d = tempfile.mkdtemp(prefix="pyvc_c13_")
+        try:
+            params = {"method": "AM1", "scf_eps": 1e-7, "scf_converger": [1], "sp2": [False, 1e-5], "elements": [0, 1], "learned": [], "pair_outer_cutoff": 1e10, "eig": True}
+            mol = Molecule(Constants(), params, torch.tensor([[[0.0, 0, 0], [0.78, 0, 0]]]), torch.tensor([[1, 1]]))
+            mol.velocities = torch.tensor([[[0.01, 0.0, 0.0], [-0.01, 0.002, 0.0]]])
+            md = Molecular_Dynamics_Langevin(damp=20.0, seqm_parameters=params, timestep=0.5, Temp=300.0,
+                                             output={"molid": [0], "prefix": os.path.join(d, "md"), "print every": 0, "checkpoint every": 0, "xyz": 0, "h5": {}})
+            torch.manual_seed(99)
+            torch.rand(burn)
+            with contextlib.redirect_stdout(io.StringIO()):
+                md.run(mol, 2, seed=seed)
+            return mol.velocities.detach().clone()
+        finally:
+            shutil.rmtree(d, ignore_errors=True)
+
+    a, b, c = run(7, 0), run(7, 13), run(8, 0)
+    same_seed_differs = float((a - b).abs().max())
+    other_seed_same = bool(torch.equal(a, c))
+    return {"reproduced": bool(same_seed_differs > 0 or other_seed_same), "max|dv| same seed, different earlier RNG use": same_seed_differs, "seed 7 and seed 8 give identical velocities": other_seed_same}
+
+
 def task_seeding(ctx):
-    """O5: with a seed, the generator is seeded before the first draw of run(), whatever happened before."""
+    """O5: with a seed, the generator is seeded before the first draw of run(), whatever happened before -- whether the
+    velocities are to be drawn or the molecule already carries user-supplied ones (the thermostats draw too)."""
     ctx.under_contract(MD + ":Molecular_Dynamics_Basic.run", note="executed with steps = 0 (the loop body is not entered)")
     seed = integer("seed")
+    rep = []
 
-    def thunk():
-        md = _make_basic()
-        mol = _mol(2)
-        mol.velocities = None
-        rec = {}
-        _install_pinv(rec)
-        st.GHOST["rng_events"].clear()
-        st.GHOST["rng_events"].append(("draw", "earlier-history"))
-        md.run(mol, 0, seed=seed)
-        return list(st.GHOST["rng_events"])
+    def rp():
+        if not rep:
+            try:
+                rep.append(replay_seed_with_user_velocities({}))
+            except Exception as exc:  # noqa
+                rep.append({"reproduced": False, "error": repr(exc)[:300]})
+        return rep[0]
 
-    ex = ctx.explore(thunk, stubs=STUBS, name="run seeding")
-    n = 0
-    for p in ex.paths:
-        if p.raised is not None:
-            if not isinstance(p.raised, RuntimeError):
-                ctx.fail("raises@p%d" % p.path_id, repr(p.raised) + p.notes.get("traceback", "")[-600:])
-            continue
-        n += 1
-        ev = p.value[1:]
-        kinds = [e[0] for e in ev]
-        ok = len(ev) >= 1 and kinds[0] == "seed" and kinds.count("seed") == 1 and ("draw" not in kinds or kinds.index("seed") < kinds.index("draw"))
-        if ok and isinstance(ev[0][1], Sym):
-            ctx.prove("seed-value-is-the-argument@p%d" % p.path_id, ev[0][1] == seed, pc=p.pc)
-        if ok:
-            ctx.ok("seeded-before-first-draw@p%d" % p.path_id, "ghost-rng", detail=str(kinds))
-        else:
-            ctx.fail("seeded-before-first-draw@p%d" % p.path_id, "event order: %r" % (kinds,))
-    if n == 0:
-        ctx.error("paths", "no returning path")
+    for preset in (False, True):
+        def thunk():
+            md = _make_basic()
+            mol = _mol(2)
+            mol.velocities = st.symbolic((1, 2, 3), "v_user") if preset else None
+            rec = {}
+            _install_pinv(rec)
+            st.GHOST["rng_events"].clear()
+            st.GHOST["rng_events"].append(("draw", "earlier-history"))
+            md.run(mol, 0, seed=seed)
+            return list(st.GHOST["rng_events"])
+
+        tag = "user-velocities" if preset else "drawn-velocities"
+        ex = ctx.explore(thunk, stubs=STUBS, name="run seeding [%s]" % tag)
+        n = 0
+        for p in ex.paths:
+            if p.raised is not None:
+                if not isinstance(p.raised, RuntimeError):
+                    ctx.fail("%s.raises@p%d" % (tag, p.path_id), repr(p.raised) + p.notes.get("traceback", "")[-600:])
+                continue
+            n += 1
+            ev = p.value[1:]
+            kinds = [e[0] for e in ev]
+            ok = len(ev) >= 1 and kinds[0] == "seed" and kinds.count("seed") == 1 and ("draw" not in kinds or kinds.index("seed") < kinds.index("draw"))
+            if ok and isinstance(ev[0][1], Sym):
+                ctx.prove("%s.seed-value-is-the-argument@p%d" % (tag, p.path_id), ev[0][1] == seed, pc=p.pc)
+            if ok:
+                ctx.ok("%s.seeded-before-first-draw@p%d" % (tag, p.path_id), "ghost-rng", detail=str(kinds))
+            else:
+                ctx.fail("%s.seeded-before-first-draw@p%d" % (tag, p.path_id), "event order after the earlier history: %r" % (kinds,), **({"replay": rp()} if preset else {}))
+        if n == 0:
+            ctx.error(tag + ".paths", "no returning path")
     ctx.assume_note("A4: torch.manual_seed(s) puts the generator in a state that depends on s only")
     ctx.undecided_clause("different seeds give different trajectories (property of the generator)")
 
